@@ -39,10 +39,12 @@ struct Team {
 static Team solo;                              // orphaned work-sharing constructs outside any region
 static __thread Team *team = nullptr; static __thread int tnum = 0; static __thread long ws_seq = 0;
 static int team_size = 1;                      // team size for outermost regions (set by the harness)
-static bool fine_points = true;                // also place choice points after critical exit and loop-end-nowait (redundant under data-race freedom: no visible effect follows before the next choice point)
+static bool fine_points = true;                // also place choice points after critical exit, after loop-end-nowait and between obtaining a dynamic chunk and executing it
+                                               // (redundant under data-race freedom: no visible operation follows before the next choice point; they expose racy code, e.g. a missing barrier)
 // measured facts
 static long n_regions = 0, n_nested = 0, n_crit = 0, n_chunks = 0, n_barriers = 0, n_dynloops = 0, n_nowait = 0;
 static std::map<void*, long> region_fns;       // outlined function -> number of outermost executions
+static std::map<void*, long> nested_fns;       // outlined function -> number of nested (serialised) executions
 static bool tracing = false; static std::string trace;   // assignment trace of the explored region
 static std::function<void(long, void*)> on_region_begin;  // (index of outermost region, outlined function) - before the team starts
 static std::function<void(long)> on_region_end;
@@ -53,11 +55,11 @@ static inline bool take_chunk(WorkShare &w, long *s, long *e){
     if ((w.incr > 0 && w.next >= w.end) || (w.incr < 0 && w.next <= w.end)) return false;
     *s = w.next; long n = w.next + w.chunk * w.incr;
     if ((w.incr > 0 && (n > w.end || n < w.next)) || (w.incr < 0 && (n < w.end || n > w.next))) n = w.end;
-    *e = n; w.next = n; n_chunks++; return true;
+    *e = n; w.next = n; __sync_fetch_and_add(&n_chunks, 1); return true;
 }
 static inline void init_ws(WorkShare &w, Team *t, long start, long end, long incr, long chunk){
     if (w.init) return; w.init = true; w.next = start; w.incr = incr; w.chunk = chunk > 0 ? chunk : 1; w.left = t->n;
-    w.end = ((incr > 0 && start > end) || (incr < 0 && start < end)) ? start : end; n_dynloops++;
+    w.end = ((incr > 0 && start > end) || (incr < 0 && start < end)) ? start : end; __sync_fetch_and_add(&n_dynloops, 1);
 }
 
 #ifndef GS_FREE
@@ -106,12 +108,12 @@ struct FreeArg { Team *t; int tnum; };
 static void *free_main(void *p){ FreeArg *a = (FreeArg*) p; team = a->t; tnum = a->tnum; ws_seq = 0; a->t->fn(a->t->data); team = nullptr; tnum = 0; return nullptr; }
 static void barrier(Team *t, const char *){
     if (t->n == 1) return;
-    pthread_mutex_lock(&t->m); n_barriers++; long g = t->bar_gen;
+    pthread_mutex_lock(&t->m); __sync_fetch_and_add(&n_barriers, 1); long g = t->bar_gen;
     if (++t->bar_arrived == t->n){ t->bar_arrived = 0; t->bar_gen++; pthread_cond_broadcast(&t->cv); }
     else while(t->bar_gen == g) pthread_cond_wait(&t->cv, &t->m);
     pthread_mutex_unlock(&t->m);
 }
-static pthread_mutex_t *tm(Team *t){ return t == &solo ? &solo_m : &t->m; }
+static pthread_mutex_t *team_mutex(Team *t){ return t == &solo ? &solo_m : &t->m; }
 #endif
 } // namespace gs
 
@@ -122,9 +124,19 @@ int omp_get_thread_num(){ return gs::tnum; }
 void GOMP_parallel(void (*fn)(void*), void *data, unsigned num_threads, unsigned /*flags*/){
     using namespace gs;
     if (team != nullptr){ // nested region: team of one
-        n_nested++; Team t1; t1.n = 1; Team *st = team; int sn = tnum; long sw = ws_seq; team = &t1; tnum = 0; ws_seq = 0;
+        Team t1; t1.n = 1; Team *st = team; int sn = tnum; long sw = ws_seq;
+#ifdef GS_FREE
+        pthread_mutex_init(&t1.m, nullptr); pthread_cond_init(&t1.cv, nullptr); __sync_fetch_and_add(&n_nested, 1);
+#else
+        n_nested++; if (!tracing) nested_fns[(void*) fn]++;
+#endif
+        team = &t1; tnum = 0; ws_seq = 0;
         fn(data);
-        team = st; tnum = sn; ws_seq = sw; return;
+        team = st; tnum = sn; ws_seq = sw;
+#ifdef GS_FREE
+        pthread_mutex_destroy(&t1.m); pthread_cond_destroy(&t1.cv);
+#endif
+        return;
     }
     long r = n_regions++; region_fns[(void*) fn]++;
     if (on_region_begin) on_region_begin(r, (void*) fn);
@@ -163,15 +175,15 @@ bool GOMP_loop_nonmonotonic_dynamic_start(long start, long end, long incr, long 
     using namespace gs; Team *t = cur(); long id = ws_seq++;
     if (t->n > 1) vs::schedule('d', "dynamic-start");   // before the operation takes effect: another thread may open the work share first
     WorkShare &w = t->ws[id]; init_ws(w, t, start, end, incr, chunk);
-    bool got = take_chunk(w, istart, iend); if (got) tr("d", *istart); return got;
+    bool got = take_chunk(w, istart, iend); if (got){ tr("d", *istart); if (t->n > 1 && fine_points) vs::schedule('a', "chunk-acquired"); } return got;
 }
 bool GOMP_loop_nonmonotonic_dynamic_next(long *istart, long *iend){
     using namespace gs; Team *t = cur();
     if (t->n > 1) vs::schedule('d', "dynamic-next");
-    WorkShare &w = t->ws[ws_seq - 1]; bool got = take_chunk(w, istart, iend); if (got) tr("d", *istart); return got;
+    WorkShare &w = t->ws[ws_seq - 1]; bool got = take_chunk(w, istart, iend); if (got){ tr("d", *istart); if (t->n > 1 && fine_points) vs::schedule('a', "chunk-acquired"); } return got;
 }
 void GOMP_loop_end(){ using namespace gs; Team *t = cur(); auto it = t->ws.find(ws_seq - 1); if (it != t->ws.end() && --it->second.left == 0) t->ws.erase(it); barrier(t, "loop-end"); }
-void GOMP_loop_end_nowait(){ using namespace gs; Team *t = cur(); n_nowait++; auto it = t->ws.find(ws_seq - 1); if (it != t->ws.end() && --it->second.left == 0) t->ws.erase(it); if (t->n > 1 && fine_points) vs::schedule('n', "loop-end-nowait"); }
+void GOMP_loop_end_nowait(){ using namespace gs; Team *t = cur(); __sync_fetch_and_add(&n_nowait, 1); auto it = t->ws.find(ws_seq - 1); if (it != t->ws.end() && --it->second.left == 0) t->ws.erase(it); if (t->n > 1 && fine_points) vs::schedule('n', "loop-end-nowait"); }
 #else
 void GOMP_critical_start(){ pthread_mutex_lock(&gs::crit_default); gs::n_crit++; }
 void GOMP_critical_end(){ pthread_mutex_unlock(&gs::crit_default); }
@@ -179,14 +191,14 @@ static pthread_mutex_t *gs_named(void **p){ pthread_mutex_lock(&gs::named_guard)
 void GOMP_critical_name_start(void **p){ pthread_mutex_lock(gs_named(p)); }
 void GOMP_critical_name_end(void **p){ pthread_mutex_unlock(gs_named(p)); }
 bool GOMP_loop_nonmonotonic_dynamic_start(long start, long end, long incr, long chunk, long *istart, long *iend){
-    using namespace gs; Team *t = cur(); long id = ws_seq++; pthread_mutex_lock(tm(t));
+    using namespace gs; Team *t = cur(); long id = ws_seq++; pthread_mutex_lock(team_mutex(t));
     WorkShare &w = t->ws[id]; init_ws(w, t, start, end, incr, chunk); bool got = take_chunk(w, istart, iend);
-    pthread_mutex_unlock(tm(t)); return got;
+    pthread_mutex_unlock(team_mutex(t)); return got;
 }
 bool GOMP_loop_nonmonotonic_dynamic_next(long *istart, long *iend){
-    using namespace gs; Team *t = cur(); pthread_mutex_lock(tm(t)); WorkShare &w = t->ws[ws_seq - 1]; bool got = take_chunk(w, istart, iend); pthread_mutex_unlock(tm(t)); return got;
+    using namespace gs; Team *t = cur(); pthread_mutex_lock(team_mutex(t)); WorkShare &w = t->ws[ws_seq - 1]; bool got = take_chunk(w, istart, iend); pthread_mutex_unlock(team_mutex(t)); return got;
 }
-static void gs_ws_done(gs::Team *t){ pthread_mutex_lock(gs::tm(t)); auto it = t->ws.find(gs::ws_seq - 1); if (it != t->ws.end() && --it->second.left == 0) t->ws.erase(it); pthread_mutex_unlock(gs::tm(t)); }
+static void gs_ws_done(gs::Team *t){ pthread_mutex_lock(gs::team_mutex(t)); auto it = t->ws.find(gs::ws_seq - 1); if (it != t->ws.end() && --it->second.left == 0) t->ws.erase(it); pthread_mutex_unlock(gs::team_mutex(t)); }
 void GOMP_loop_end(){ gs::Team *t = gs::cur(); gs_ws_done(t); gs::barrier(t, "loop-end"); }
 void GOMP_loop_end_nowait(){ gs::Team *t = gs::cur(); gs_ws_done(t); }
 #endif
@@ -209,14 +221,14 @@ static Sym load_symbols(const char *exe){
     pclose(p); return s;
 }
 // "TasGrid::GridLocalPolynomial::buildUpdateMap(double, ...) const [clone ._omp_fn.0]" -> "GridLocalPolynomial::buildUpdateMap#0"
-static std::string short_name(const std::string &full){
+static std::string short_name(const std::string &full, bool keep_targs = false){
     std::string s = full; std::string idx; size_t c = s.find("._omp_fn."); if (c != std::string::npos){ idx = s.substr(c + 9); size_t e = idx.find_first_not_of("0123456789"); if (e != std::string::npos) idx = idx.substr(0, e); }
     size_t cl = s.find(" [clone"); if (cl != std::string::npos) s = s.substr(0, cl);
     // strip the argument list (last top-level parenthesis group) and template arguments
     int depth = 0; size_t cut = std::string::npos; for(size_t i = 0; i < s.size(); i++){ if (s[i] == '<') depth++; else if (s[i] == '>') depth--; else if (s[i] == '(' && depth == 0){ cut = i; break; } }
     if (cut != std::string::npos) s = s.substr(0, cut);
-    std::string o; depth = 0; for(char ch : s){ if (ch == '<'){ depth++; continue; } if (ch == '>'){ depth--; continue; } if (depth == 0) o += ch; }
-    size_t sp = o.rfind(' '); if (sp != std::string::npos) o = o.substr(sp + 1);
+    std::string o; depth = 0; size_t lastsp = std::string::npos; for(char ch : s){ if (ch == '<'){ depth++; if (!keep_targs) continue; } if (ch == '>'){ depth--; if (!keep_targs) continue; } if (depth == 0 || keep_targs){ if (ch == ' ' && depth == 0) lastsp = o.size(); o += (ch == ' ' ? '_' : ch); } }
+    if (lastsp != std::string::npos) o = o.substr(lastsp + 1);
     if (o.compare(0, 9, "TasGrid::") == 0) o = o.substr(9);
     return o + "#" + idx;
 }
